@@ -145,7 +145,7 @@ def check(ctx):
            "every neuron group receives the combination of all transformed connection outputs" if ok else "wiring expression does not have the documented shape", bw.where)
     bi = bic.methods.get("__init__")
     ctx.touch(bi)
-    modes_ok, red_ok, found = False, False, []
+    modes_ok, red_ok, found, red_pat = False, False, [], None
     for m in [n for n in walk_own(bi.node) if isinstance(n, ast.Match)]:
         for case in m.cases:
             lits = []
@@ -164,13 +164,17 @@ def check(ctx):
                         try:
                             pp = einops_alg.Pattern(pat)
                             left, right = pp.inputs[0], pp.output
-                            only_stack = left.groups[0] not in right.groups and left.groups[1:] == [g for g in right.groups if g != [] and g != ["1"]][-len(left.groups[1:]):]
+                            # the stacked axis is removed and nothing else changes: no unit axis may be left in its place,
+                            # or every output would carry an extra leading dimension instead of the neurons' batched shape
+                            only_stack = left.groups[0] not in right.groups and right.groups == left.groups[1:]
                         except Exception:
                             only_stack = False
                         red_ok = from_combine and only_stack
-    ctx.ob("C17.a", "Biclique combine modes map to the same-named reduction over the stacked connection axis", modes_ok and red_ok,
+                        red_pat = pat
+    ctx.ob("C17.a", "Biclique combine modes map to the same-named reduction that removes exactly the stacked connection axis", modes_ok and red_ok,
            f"literal modes {found}; reduction name taken from `combine`, pattern reduces only the stacking axis" if modes_ok and red_ok
-           else f"literal modes {found}; modes_ok={modes_ok} reduction_ok={red_ok}", bi.where)
+           else f"literal modes {found} (ok={modes_ok}); reduction pattern {red_pat!r} does not map (s, *shape) to (*shape): "
+                f"the combined current keeps an extra leading axis, so neuron outputs and states are shaped (1, B, ...) instead of the batched shape", bi.where)
 
     # ---------------- (b) RecurrentSerial
     rs = P.cls("RecurrentSerial")
